@@ -950,6 +950,16 @@ class Unit:
             btxt = r.render(bs, be)
             if r23k is not None:
                 btxt = "{" + entry_txt_r23 + r.render(it["stmts"][r23k][0], be - 1) + "}"
+            for (ctor, argty, retty) in opts.get("etas", []):
+                # R26: a datatype constructor used as a function value is eta-expanded into a closure with the obvious contract
+                btxt, n_eta = re.subn(r"(?<![\w:])" + re.escape(ctor) + r"\b(?!\s*[(:{])",
+                                      f"(|x__: {argty}| -> (res__: {retty}) ensures res__ == {ctor}(x__) {{ {ctor}(x__) }})", btxt)
+                n_eta_total = locals().get("n_eta_total", 0) + n_eta
+                if n_eta == 0:
+                    continue
+                self.log("R26", relfile, src, bs, f"{path}: constructor `{ctor}` used as a function value -> closure |x| {ctor}(x) ({n_eta}x)")
+            if opts.get("etas") and locals().get("n_eta_total", 0) == 0:
+                raise AnchorLost(f"{where}: eta: none of the listed constructors is used as a function value any more")
             if "r24m" in opts:
                 # R24 (match form): the body is `match p.as_mut() { None => A, Some(p) => B }` for a pointer parameter p: the parameter
                 # becomes `p: &mut T` and the body becomes `B` (dropped: the None arm, i.e. the behaviour for a null pointer)
@@ -1076,6 +1086,8 @@ class Unit:
                         opts["execconst"] = f[10:] if f.startswith("execconst=") else ""
                     elif f.startswith("sub="):
                         opts.setdefault("subs", []).append(tuple(f[4:].split("=>", 1)))
+                    elif f.startswith("eta="):
+                        opts.setdefault("etas", []).append(tuple(x.strip() for x in f[4:].split(">")))
                     else:
                         for o in f.split():
                             if "=" in o:
